@@ -255,9 +255,10 @@ func goImportSpec(spec *gopast.ImportSpec) *ast.ImportSpec {
 
 func goTypeSpec(spec *gopast.TypeSpec) *ast.TypeSpec {
 	return &ast.TypeSpec{
-		Name:   goIdent(spec.Name),
-		Assign: spec.Assign,
-		Type:   goType(spec.Type),
+		Name:       goIdent(spec.Name),
+		TypeParams: goFieldList(spec.TypeParams),
+		Assign:     spec.Assign,
+		Type:       goType(spec.Type),
 	}
 }
 
